@@ -332,9 +332,6 @@ fn raw_message(surface: &Surface, name: &str, shape: u64, root: &str, nroots: us
 
 struct S {
     tiered: bool,
-    /// `literal=1` in the case header: the soundness monitor transcribes the LITERAL clause (no exception for inner-node
-    /// preimages); used by the counter-example replay in corpus/C14
-    literal: bool,
     pending: Vec<String>,
     slots: BTreeMap<u64, (Tree, Vec<String>)>,
     /// lower-case root hex -> what the harness committed to with it
@@ -362,7 +359,6 @@ fn no_surface() -> [Surface; 2] {
 fn fresh(tiered: bool, surface: [Surface; 2]) -> S {
     S {
         tiered,
-        literal: false,
         pending: vec![],
         slots: BTreeMap::new(),
         by_root: HashMap::new(),
@@ -844,15 +840,17 @@ impl S {
             // soundness: only listed entries of the list committed by *this* root
             let listed = known.map(|k| k.set.contains(member)).unwrap_or(false);
             if !listed {
-                // the one exception the (partial) soundness theorem makes: the queried string IS the preimage of an inner node
+                // The LITERAL clause is transcribed: a string that is not a listed entry was accepted. When that string is
+                // byte-for-byte the preimage of an inner node of the committed tree (the third disjunct of `C14_sound_partial`,
+                // `C14_sound_counterexample`: no leaf/inner domain separation) the finding carries its own key — listed in
+                // known_findings.json — and EVERY other way in stays `non-member-accepted`.
                 let inner = known.map(|k| k.inner.contains(member.as_bytes())).unwrap_or(false);
-                if inner && !self.literal {
+                let key = if inner { "inner-preimage-accepted" } else { "non-member-accepted" };
+                if inner {
                     self.marks.push(format!("has:{}:inner-preimage-accepted", if self.tiered { "t" } else { "p" }));
-                } else {
-                    let key = if inner { "inner-preimage-accepted" } else { "non-member-accepted" };
-                    self.viol = bad(key, format!("`{}` is not in the list committed by the root in force", member.escape_default()));
-                    return;
                 }
+                self.viol = bad(key, format!("`{}` is not in the list committed by the root in force", member.escape_default()));
+                return;
             }
         }
         if let Some(k) = known {
@@ -952,7 +950,6 @@ impl Sut for S {
     fn begin(&mut self, header: &str) -> (String, String) {
         let surface = std::mem::replace(&mut self.surface, no_surface());
         *self = fresh(kv(header, "kind") == Some("tiered"), surface);
-        self.literal = kv(header, "literal") == Some("1");
         (header.to_string(), "case".to_string())
     }
     fn exec(&mut self, line: &str) -> (String, String) {
@@ -1946,44 +1943,66 @@ fn scenario_mint(cx: &mut Ctx, tiered: bool, minter: &str, tag: u64) {
     cx.ses.end_case();
 }
 
-/// two strings whose BLAKE3/16 digests are both valid UTF-8 (so the 32-byte concatenation can travel as a JSON string)
-fn utf8_digest_strings(tag: u64) -> Vec<String> {
+/// strings whose digests are valid UTF-8 (so the concatenation of two digests can travel as a JSON string).
+/// BLAKE3/16: found by search at run time (≈ 1 in 11 000). SHA-256: ≈ 1 in 10^8 — found once offline, verified here.
+fn utf8_digest_strings(tiered: bool) -> Vec<String> {
     let mut found = vec![];
-    let mut i = 0u64;
-    while found.len() < 3 && i < 5_000_000 {
-        let s = format!("m{tag}x{i}");
-        if std::str::from_utf8(&blake3_16(s.as_bytes())).is_ok() {
-            found.push(s);
+    if tiered {
+        let mut i = 0u64;
+        while found.len() < 3 && i < 5_000_000 {
+            let s = format!("m7x{i}");
+            if std::str::from_utf8(&blake3_16(s.as_bytes())).is_ok() {
+                found.push(s);
+            }
+            i += 1;
         }
-        i += 1;
+    } else {
+        for i in SHA256_UTF8_SEEDS {
+            let s = format!("s{i}");
+            if std::str::from_utf8(&sha256_32(s.as_bytes())).is_ok() {
+                found.push(s);
+            }
+        }
     }
     found
 }
+/// `sha256("s<i>")` is valid UTF-8 for these `i` (offline search over 6·10^8 candidates; re-verified at run time)
+const SHA256_UTF8_SEEDS: &[u64] = &[@@SEEDS@@];
 
-/// Scenario F: the counter-example to the LITERAL soundness clause, on the real contract (`C14_sound_counterexample`):
-/// the 2·16-byte preimage of an inner node is answered `has_member: true` although it is not a listed entry — no
-/// collision involved. The monitor excepts exactly this (the theorem's third disjunct) unless the case says `literal=1`.
-fn scenario_inner_preimage(cx: &mut Ctx, literal: bool) -> Vec<String> {
-    let ms = utf8_digest_strings(7);
+/// Scenario F: the counter-example to the LITERAL soundness clause, on the real contracts (`C14_sound_counterexample`):
+/// the 2n-byte preimage of an inner node is answered `has_member: true` although it is not a listed entry — no collision
+/// involved. The soundness monitor reports it as `<contract>/has_member/inner-preimage-accepted` (a KNOWN finding, listed in
+/// known_findings.json) in EVERY run; returns the lines of the case (for the corpus replay).
+fn scenario_inner_preimage(cx: &mut Ctx, tiered: bool) -> Vec<String> {
+    let ms = utf8_digest_strings(tiered);
+    let (kind, k) = if tiered { ("tiered", "t") } else { ("plain", "p") };
     let mut lines = vec![];
-    if ms.len() < 3 {
-        cx.ses.note("inner-preimage scenario skipped: no three strings with UTF-8 BLAKE3/16 digests found");
+    if ms.len() < 2 {
+        cx.ses.note(format!("inner-preimage scenario skipped ({kind}): no two strings with UTF-8 digests available"));
         return lines;
     }
-    let header = format!("case kind=tiered scen=inner-preimage literal={}", literal as u8);
+    let header = format!("case kind={kind} scen=inner-preimage");
     cx.ses.begin_case(cx.sut, &header);
     lines.push(header);
-    let fee = creation_fee(true);
+    let fee = creation_fee(tiered);
     let t0 = GENESIS + 3_000;
     let mut step = |cx: &mut Ctx, l: String| -> String {
         let o = cx.step(&l);
         lines.push(l);
         o
     };
-    let (ha, hb, hc) = (blake3_16(ms[0].as_bytes()), blake3_16(ms[1].as_bytes()), blake3_16(ms[2].as_bytes()));
+    let h = |d: &[u8]| -> Vec<u8> {
+        if tiered {
+            blake3_16(d).to_vec()
+        } else {
+            sha256_32(d).to_vec()
+        }
+    };
+    let (ha, hb) = (h(ms[0].as_bytes()), h(ms[1].as_bytes()));
     let (x, y) = if ha <= hb { (ha, hb) } else { (hb, ha) };
-    let mut pre = x.to_vec();
+    let mut pre = x.clone();
     pre.extend_from_slice(&y);
+    let n2 = pre.len();
     let pre_s = String::from_utf8(pre).unwrap();
     // two members: the inner preimage IS the root's preimage; empty proof
     for m in &ms[..2] {
@@ -1991,18 +2010,29 @@ fn scenario_inner_preimage(cx: &mut Ctx, literal: bool) -> Vec<String> {
     }
     let root2 = step(cx, "build slot=0".to_string()).strip_prefix("ok ").unwrap_or("-").to_string();
     // three members: the third is promoted; the inner preimage needs the proof [H(c)]
-    for m in &ms[..3] {
+    let third = ms.get(2).cloned().unwrap_or_else(|| "third-member".to_string());
+    for m in ms[..2].iter().chain(std::iter::once(&third)) {
         step(cx, format!("leaf m={}", hx(m)));
     }
     let root3 = step(cx, "build slot=1".to_string()).strip_prefix("ok ").unwrap_or("-").to_string();
-    step(cx, format!("inst now={t0} funds=0:{fee} roots={root2},{root3} uri_ok=1 stages={}:{}:1:0;{}:{}:1:0 admins=11 admins_ok=1 mutable=0 minter=none", t0 + 10, t0 + 20, t0 + 30, t0 + 40));
+    let hc = h(third.as_bytes());
+    if tiered {
+        step(cx, format!("inst now={t0} funds=0:{fee} roots={root2},{root3} uri_ok=1 stages={}:{}:1:0;{}:{}:1:0 admins=11 admins_ok=1 mutable=0 minter=none", t0 + 10, t0 + 20, t0 + 30, t0 + 40));
+    } else {
+        step(cx, format!("inst now={t0} funds=0:{fee} root={root2} uri_ok=1 start={} end={} pal=1 admins=11 admins_ok=1 mutable=0 minter=none", t0 + 10, t0 + 20));
+    }
+    // a 2n-byte string that is NOT an inner preimage stays out
+    let o = step(cx, format!("has now={} m={} proof=-", t0 + 15, hx(&"y".repeat(n2))));
+    cx.ses.mark(format!("has:{k}:not-an-inner-preimage:{}", o.replace(' ', "")));
+    // the inner preimage gets in with the empty proof
     let o = step(cx, format!("has now={} m={} proof=-", t0 + 15, hx(&pre_s)));
-    cx.ses.mark(format!("has:t:inner-preimage:empty-proof:{}", o.replace(' ', "")));
-    let o = step(cx, format!("has now={} m={} proof={}", t0 + 35, hx(&pre_s), hex::encode(hc)));
-    cx.ses.mark(format!("has:t:inner-preimage:one-element-proof:{}", o.replace(' ', "")));
-    // a 32-byte string that is NOT an inner preimage stays out
-    let o = step(cx, format!("has now={} m={} proof=-", t0 + 15, hx(&"y".repeat(32))));
-    cx.ses.mark(format!("has:t:not-an-inner-preimage:{}", o.replace(' ', "")));
+    cx.ses.mark(format!("has:{k}:inner-preimage:empty-proof:{}", o.replace(' ', "")));
+    // … and, in a three-member tree, with the one-element proof of its parent
+    if !tiered {
+        step(cx, format!("inst now={t0} funds=0:{fee} root={root3} uri_ok=1 start={} end={} pal=1 admins=11 admins_ok=1 mutable=0 minter=none", t0 + 10, t0 + 20));
+    }
+    let o = step(cx, format!("has now={} m={} proof={}", if tiered { t0 + 35 } else { t0 + 15 }, hx(&pre_s), hex::encode(hc)));
+    cx.ses.mark(format!("has:{k}:inner-preimage:one-element-proof:{}", o.replace(' ', "")));
     cx.ses.end_case();
     lines
 }
@@ -2058,7 +2088,9 @@ fn main() {
     ses.require("floor:mint:plain:rejected-after-close-by-update");
     ses.require("floor:mint:tiered:accepted-at-window-end");
     ses.require("floor:mint:plain:accepted-at-window-end-1");
+    // the known finding must still reproduce (relax when a repair of the leaf/inner confusion is recorded)
     ses.require("has:t:inner-preimage:empty-proof:ok1");
+    ses.require("has:p:inner-preimage:empty-proof:ok1");
     ses.require("list:plain:has-listed-entry-of-2n-bytes");
     ses.require("mintfacts:own-proof:seen0:ok");
 
@@ -2074,17 +2106,17 @@ fn main() {
         scenario_instantiate(&mut cx, tiered);
         scenario_surface(&mut cx, tiered);
     }
-    let ce = scenario_inner_preimage(&mut cx, false);
-    if let Ok(path) = std::env::var("C14_DUMP_COUNTEREXAMPLE") {
-        // development aid: write the literal-clause replay for corpus/C14 (header switched to `literal=1`)
-        let mut ops = ce.clone();
-        if let Some(h) = ops.first_mut() {
-            *h = h.replace("literal=0", "literal=1");
+    // the KNOWN finding (known_findings.json: `*/has_member/inner-preimage-accepted`): exercised in every run, on both contracts
+    let ce_t = scenario_inner_preimage(&mut cx, true);
+    let ce_p = scenario_inner_preimage(&mut cx, false);
+    if let Ok(dir) = std::env::var("C14_DUMP_COUNTEREXAMPLE") {
+        // development aid: write the replays for corpus/C14
+        for (name, c, ops) in [("inner-preimage-accepted", "tiered-whitelist-merkletree", &ce_t), ("inner-preimage-accepted-sha256", "whitelist-merkletree", &ce_p)] {
+            let doc = json!({"property": "C14", "kind": "monitor", "key": format!("{c}/has_member/inner-preimage-accepted"),
+                "what": "the 2n-byte preimage of an inner node is answered has_member:true although it is not a listed entry (no leaf/inner domain separation); Lean: C14_sound_counterexample",
+                "ops": ops, "how_to_replay": format!("./check C14 --replay corpus/C14/{name}.json")});
+            std::fs::write(std::path::Path::new(&dir).join(format!("{name}.json")), serde_json::to_string_pretty(&doc).unwrap()).ok();
         }
-        let doc = json!({"property": "C14", "kind": "monitor", "key": "tiered-whitelist-merkletree/has_member/inner-preimage-accepted",
-            "what": "the 32-byte preimage of an inner node is answered has_member:true although it is not a listed entry (no leaf/inner domain separation); Lean: C14_sound_counterexample",
-            "ops": ops, "how_to_replay": "./check C14 --replay corpus/C14/inner-preimage-accepted.json"});
-        std::fs::write(path, serde_json::to_string_pretty(&doc).unwrap()).ok();
     }
     // a bare 64-character (contract) address list on the SHA-256 contract: listed entries of exactly 2·32 bytes — every seed
     scenario_membership(&mut cx, false, 5, 900, Some((Names::Contract64, 0)));
